@@ -160,6 +160,21 @@ pub fn run(ctx: &Ctx, st: &mut Stats) {
 /// their first library calls at once (high latitude near the solstice under the default policy: the longest code
 /// path). Lazy initialisation that is not thread-safe only shows here. Exit code 0 = every call returned a
 /// 7-entry map, 10 = a call panicked (message on stdout).
+static ARRIVED: std::sync::atomic::AtomicUsize = std::sync::atomic::AtomicUsize::new(0);
+/// After the (futex) barrier has made sure every thread exists, a spin rendezvous releases the threads within tens of
+/// nanoseconds of each other (a futex wake-up alone staggers them by microseconds); `jitter` spin iterations
+/// afterwards vary the alignment from process to process.
+fn tight_release(threads: usize, jitter: u32) {
+    use std::sync::atomic::Ordering::SeqCst;
+    ARRIVED.fetch_add(1, SeqCst);
+    while ARRIVED.load(SeqCst) < threads {
+        std::hint::spin_loop();
+    }
+    for _ in 0..jitter {
+        std::hint::spin_loop();
+    }
+}
+
 pub fn coldstart(threads: usize, seed: u64) -> i32 {
     use std::sync::{Arc, Barrier};
     let barrier = Arc::new(Barrier::new(threads));
@@ -168,13 +183,15 @@ pub fn coldstart(threads: usize, seed: u64) -> i32 {
         let b = barrier.clone();
         hs.push(std::thread::spawn(move || {
             let mut r = Rng::new(seed, 777, t as u64);
-            let la = if t % 2 == 0 { r.range(60.0, 70.0) * r.sign() } else { r.range(-50.0, 50.0) };
+            let la = if t % 8 == 0 { r.range(60.0, 70.0) * r.sign() } else { r.range(-50.0, 50.0) };
             let lon = r.range(-180.0, 180.0);
             let l = loc(la, lon, 0.0, (lon / 15.0).round().clamp(-12.0, 12.0));
             let y = r.int(1600, 2399) as i32;
             let d = if la > 0.0 { ymd(y, 6, r.int(10, 30) as u32) } else { ymd(y, 12, r.int(10, 31) as u32) };
             let p = Params::new(METHODS[r.int(1, 8) as usize]);
+            let jitter = if seed % 4 == 0 { r.int(0, 24) } else { 0 }; // three processes in four: no stagger at all
             b.wait();
+            tight_release(threads, jitter as u32);
             let mut out = vec![];
             let mut first: Vec<(chrono::NaiveDate, Option<Res>)> = vec![];
             for k in 0..3 {
@@ -250,6 +267,7 @@ pub fn coldstart_other(kind: &str, threads: usize, seed: u64, stack_kib: usize) 
                         "hijri" => {
                             let d = from_ce(r.int(ce(ymd(1, 1, 1)) as i64, ce(ymd(9999, 12, 31)) as i64) as i32);
                             b.wait();
+                            tight_release(threads, (seed % 32) as u32 * (t as u32 % 3));
                             match super::guarded(|| {
                                 let h = HijriDate::from(d);
                                 (h.year(), h.pre_epoch(), h.month() as u32, h.day() as u32, h.to_string())
@@ -267,6 +285,7 @@ pub fn coldstart_other(kind: &str, threads: usize, seed: u64, stack_kib: usize) 
                             let texts = ["1e9", "-181", "8848.5", "45", "nan", "12.5", "-12.01", "", "91"];
                             let t0 = texts[(r.next() % texts.len() as u64) as usize];
                             b.wait();
+                            tight_release(threads, (seed % 32) as u32 * (t as u32 % 3));
                             match super::guarded(|| (t0.parse::<Latitude>().is_ok(), t0.parse::<Longitude>().is_ok(), t0.parse::<Elevation>().is_ok(), t0.parse::<Gmt>().is_ok(), serde_json::from_str::<Pressure>(t0).is_ok())) {
                                 Ok((la, lo, el, g, _)) => {
                                     let v: Option<f64> = t0.parse::<f64>().ok().filter(|x| x.is_finite());
@@ -281,6 +300,7 @@ pub fn coldstart_other(kind: &str, threads: usize, seed: u64, stack_kib: usize) 
                         _ => {
                             let (la, lo) = (r.range(-89.0, 89.0), r.range(-180.0, 180.0));
                             b.wait();
+                            tight_release(threads, (seed % 32) as u32 * (t as u32 % 3));
                             match super::guarded(|| Qibla::new(Coordinates::new(lat(la), Longitude::try_from(lo).unwrap(), Elevation::try_from(0.0).unwrap())).degrees()) {
                                 Ok(deg) => {
                                     let want = crate::oracle::qibla_bearing(la, lo);
